@@ -164,3 +164,44 @@ let () =
   register "writer.escape" (function [h] -> hex_of_bytes (Writer.escape (bytes_of_hex h)) | _ -> "BADCASE");
   (* buffer reuse is unobservable in the model: the scratch Vec is cleared before use *)
   register "writer.escape_reuse" (function [_; h] -> hex_of_bytes (Writer.escape (bytes_of_hex h)) | _ -> "BADCASE")
+
+(* ---------------------------------------------------------------- wave 5 (w_wr) *)
+(* documents in the prefix encoding of props/textdoc.py ser (same decoder as ocaml/fam_spec.ml) *)
+let parse_doc_w (s : string) : TextDoc.fields =
+  let a = Array.of_list (Stdlib.String.split_on_char ' ' s) in
+  let i = ref 0 in
+  let next () = if !i >= Array.length a then raise Bad else (let x = a.(!i) in incr i; x) in
+  let op_of s = if s = "-" then None else (let c = int_of_string s in if c < 0 || c > 7 then raise Bad; Some (Ttglue.op_of_code c)) in
+  let kind s = if s = "Q" then TextDoc.Quo else TextDoc.Unq in
+  let rec value () : TextDoc.value =
+    match next () with
+    | "S" -> let k = kind (next ()) in let b = bytes_of_hex (next ()) in TextDoc.VScalar (k, b)
+    | "O" -> let n = int_of_string (next ()) in let fs = fields n in
+      let m = int_of_string (next ()) in let tl = values m in TextDoc.VObject (fs, tl)
+    | "A" -> let n = int_of_string (next ()) in TextDoc.VArray (values n)
+    | "K" -> let n = int_of_string (next ()) in let items = values n in
+      let m = int_of_string (next ()) in let kv = fields m in TextDoc.VArrayKv (items, kv)
+    | "H" -> let name = bytes_of_hex (next ()) in let v = value () in TextDoc.VHeader (name, v)
+    | _ -> raise Bad
+  and field () : TextDoc.field =
+    match next () with
+    | "F" -> let k = kind (next ()) in let key = bytes_of_hex (next ()) in let op = op_of (next ()) in
+      let v = value () in TextDoc.Field (k, key, op, v)
+    | "PV" -> let name = bytes_of_hex (next ()) in let u = next () = "1" in let s = bytes_of_hex (next ()) in TextDoc.ParamV (name, u, s)
+    | "PO" -> let name = bytes_of_hex (next ()) in let u = next () = "1" in let n = int_of_string (next ()) in
+      TextDoc.ParamO (name, u, fields n)
+    | _ -> raise Bad
+  and fields n : TextDoc.fields = if n <= 0 then TextDoc.FNil else let f = field () in TextDoc.FCons (f, fields (n - 1))
+  and values n : TextDoc.values = if n <= 0 then TextDoc.VNil else let v = value () in TextDoc.VCons (v, values (n - 1)) in
+  let n = int_of_string (next ()) in
+  fields n
+
+let () =
+  (* writer.kclass <doc> : the class K of Props/C14_mixcont.v / C15_mixcont.v (model only: a classifier for the oracles) *)
+  register "writer.kclass" (function [d] -> guard (fun () ->
+      let doc = parse_doc_w d in
+      Printf.sprintf "k14=%s k15=%s wx=%d k14p=%s" (string_of_n (WriterMix.k14_class doc)) (string_of_n (WriterMix.k15_class doc))
+        (if WriterMix.wx_fields doc then 1 else 0) (string_of_n (WriterMix.k14p_class doc))) | _ -> "BADCASE");
+  (* writer.wfword <hex> : TextDoc.wf_word, the contract assumed of every text the writer prints as a bare word *)
+  register "writer.wfword" (function [h] -> guard (fun () ->
+      if WriterMix.wf_word_text (bytes_of_hex h) then "1" else "0") | _ -> "BADCASE")
